@@ -57,7 +57,7 @@ func TestWitness_MultiTypeSubscribeDeadlock(t *testing.T) {
 		t.Skip("development run: finding assumed known, witness not evaluated")
 	}
 	kf.Witness(t, knownDeadlock, func() (bool, string) {
-		attempts := hx.Pick(20000, 60000)
+		attempts := hx.Pick(2000, 6000)
 		for attempt := 0; attempt < attempts; attempt++ {
 			bus := eventbus.NewBus()
 			em, err := bus.Emitter(new(WT0), eventbus.Stateful)
